@@ -126,6 +126,24 @@ func errorHandled(c ssa.CallInstruction) (bool, string) {
 			return false
 		}
 		seen[ev] = true
+		// when the value is tested against nil, that test decides: every such test must fail clean on its non-nil branch
+		// (a `return err` that sits on only one side of a further condition inside that branch does not count)
+		nChecks, allClean := 0, true
+		for _, ref := range *ev.Referrers() {
+			if x, ok := ref.(*ssa.BinOp); ok && (isNilConst(x.X) || isNilConst(x.Y)) {
+				for _, r2 := range *x.Referrers() {
+					if iff, ok := r2.(*ssa.If); ok {
+						nChecks++
+						if !BranchFailsClean(iff, x.Op.String() == "!=", nil) {
+							allClean = false
+						}
+					}
+				}
+			}
+		}
+		if nChecks > 0 {
+			return allClean
+		}
 		for _, ref := range *ev.Referrers() {
 			switch x := ref.(type) {
 			case *ssa.Return:
